@@ -140,6 +140,9 @@ class Tr:
                     return '(EIsStr %s)' % self.expr(e.args[0])
                 if f.id == 'isinstance' and len(e.args) == 2 and isinstance(e.args[1], ast.Name) and e.args[1].id == 'dict':
                     return '(EIsDict %s)' % self.expr(e.args[0])
+                if f.id == 'list' and len(e.args) == 1 and dotted(e.args[0]) is not None and dotted(e.args[0]) not in self.consts \
+                        and not isinstance(self.consts.get(dotted(e.args[0])), dict):
+                    return '(EListOf %s)' % self.expr(e.args[0])
                 if f.id == 'set' and len(e.args) == 1:
                     return '(ESetOf %s)' % self.expr(e.args[0])
                 if f.id == 'list' and len(e.args) == 1:
@@ -288,6 +291,7 @@ FUNCS = [
     ('g_init_prefix', 'localcider/backend/sequence.py', 'Sequence', '__init__', [],
      ('upto', 'self.chargePattern = chargePattern')),
     ('g_parse_group', 'localcider/backend/sequence.py', 'Sequence', '__parse_group', ['aminoacids.']),
+    ('g_kappa_at_maxPhos', 'localcider/backend/sequence.py', 'Sequence', 'kappa_at_maxPhos', []),
     ('g_kappa_X', 'localcider/backend/sequence.py', 'Sequence', 'kappa_X', []),
     ('g_Omega', 'localcider/backend/sequence.py', 'Sequence', 'Omega', []),
     ('g_Omega_seq', 'localcider/backend/sequence.py', 'Sequence', 'Omega_seq', []),
